@@ -129,3 +129,8 @@ func FreeVar[T any](name string) T { var z T; return z }
 // source; FieldType is that field's Go type, printed with package names.
 func FieldTag[T any](name string) string  { return "" }
 func FieldType[T any](name string) string { return "" }
+
+// HavocExcept: arbitrary effects on the whole heap except the locations whose
+// array name contains one of the given strings. For specification functions
+// that stand for calls to unknown code (verif:dyncall, verif:fieldfn).
+func HavocExcept(keep ...string) {}
